@@ -10,6 +10,7 @@ import (
 	"crypto/x509"
 	"fmt"
 	"io"
+	"net"
 	"strings"
 	"sync"
 	"time"
@@ -208,6 +209,18 @@ func (c *HandshakeConfig) GetCertificate(clientHelloInfo *ClientHelloInfo) (*tls
 	}
 
 	return &c.LocalCertificates[0], nil
+}
+
+// ServerNameIndication returns the name to offer in the server_name extension.
+// ServerName stays the name the server's certificate is verified against; an IP
+// address literal is a valid name to verify but must not be sent as an SNI value
+// (RFC 6066, Section 3).
+func (c *HandshakeConfig) ServerNameIndication() string {
+	if net.ParseIP(c.ServerName) != nil {
+		return ""
+	}
+
+	return c.ServerName
 }
 
 func (c *HandshakeConfig) shouldGetCertificateFromCallbackLocked(clientHelloInfo *ClientHelloInfo) bool {
